@@ -292,11 +292,12 @@ impl AggregateExecutionEngine {
                                  having)? {
                     continue;
                 }
+            }
 
-                if aggregate_statement.distinct {
-                    if !self.distinct_values.add(&result_columns) {
-                        continue;
-                    }
+            // DISTINCT applies to every printed table, with or without HAVING
+            if aggregate_statement.distinct {
+                if !self.distinct_values.add(&result_columns) {
+                    continue;
                 }
             }
 
